@@ -122,7 +122,18 @@ static bool applyContract(State &S, const CallBase *CB, const std::vector<Effect
       nlo = nhi = pt->isSized() ? (i128)DLp->getTypeAllocSize(pt) : 0;
     }
     std::string what = "contract " + std::string(CB->getCalledFunction() ? CB->getCalledFunction()->getName() : "?") + " arg" + std::to_string(e.ptr);
-    if (e.op == "read") { if (checkAccess(S, p, nlo, nhi, false, CB, what.c_str(), lr, lk)) checkInit(S, p, nlo, nhi, CB, what.c_str()); continue; }
+    if (e.op == "read") {
+      if (checkAccess(S, p, nlo, nhi, false, CB, what.c_str(), lr, lk)) {
+        checkInit(S, p, nlo, nhi, CB, what.c_str());
+        if (!CFG.traceRegions.empty() && p.k == Val::PTR && p.reg >= 0 && nhi > 0) {
+          i128 olo, ohi; offsetBounds(S, p, olo, ohi);
+          markRead(S, p.reg, olo, ohi + nhi);
+          addEvent(S, "{\"k\":\"cread\",\"callee\":\"" + std::string(CB->getCalledFunction() ? CB->getCalledFunction()->getName() : "?") + "\",\"fn\":\"" + std::string(CB->getFunction()->getName()) +
+                         "\",\"line\":" + std::to_string(lineOf(CB)) + ",\"reg\":\"" + S.regions[p.reg].name + "\",\"off\":" + rangeJ(olo, ohi) + ",\"len\":" + rangeJ(nlo, nhi) + ",\"root\":" + std::to_string(lr) + ",\"rk\":" + i128s(lk) + "}");
+        }
+      }
+      continue;
+    }
     if (nhi == 0) continue;
     if (!checkAccess(S, p, nlo, nhi, true, CB, what.c_str(), lr, lk)) continue;
     Region &R = S.regions[p.reg];
@@ -431,6 +442,7 @@ bool modelCall(State &S, const CallBase *CB, const std::string &name, std::vecto
       }
       else if (dhi <= 19) { unsigned __int128 mx = 1; for (i128 k = 0; k < dhi; k++) mx *= 10; res = Val::range(64, ConstantRange::getNonEmpty(APInt(64, 0), APInt(64, (uint64_t)(mx - 1)) + 1), P_SETTING); }
     } else { dlo = 0; dhi = 40; }
+    markRead(S, sp.reg, olo, ohi + dhi);
     if (ep.k == Val::PTR && ep.reg >= 0) {
       Val e = sp; e.root = -1; e.kb = KnownBits(64);
       e.r = ConstantRange::getNonEmpty(APInt(64, (uint64_t)(olo + dlo), true), APInt(64, (uint64_t)(ohi + dhi), true) + 1);
@@ -607,6 +619,7 @@ static uint64_t stateHash(const State &S, const BasicBlock *at) {
   }
   mix(S.nW > 0); mix(S.wroteReport);
   for (auto &e : S.events) for (char c : e) mix((uint64_t)c);
+  for (auto &kv : S.readBits) { mix((uint64_t)kv.first); for (size_t w = 0; w < 16; w++) mix(((const uint64_t *)&kv.second)[w]); }
   return h;
 }
 
@@ -732,6 +745,18 @@ static bool seenBefore(State &S, BasicBlock *to) {
 
 // back-propagate a refined value of V to the values it was computed from
 static void refineLoadedCell(State &S, const Value *V, const Val &nv);
+static bool isPureFn(const Function *F) {
+  static std::map<const Function *, bool> memo;
+  auto it = memo.find(F);
+  if (it != memo.end()) return it->second;
+  bool pure = !F->isDeclaration();
+  for (auto &B : *F) for (auto &I : B) {
+    if (isa<StoreInst>(I) || isa<AtomicRMWInst>(I) || isa<AtomicCmpXchgInst>(I)) pure = false;
+    if (auto *cb = dyn_cast<CallBase>(&I)) { const Function *c = cb->getCalledFunction(); if (!c || !c->getName().startswith("llvm.dbg.")) pure = false; }
+  }
+  return memo[F] = pure;
+}
+
 static void backprop(State &S, const Value *V, const Val &nv, int depth = 0) {
   auto *I = dyn_cast<Instruction>(V);
   if (!I || depth > 6 || nv.k != Val::INT) return;
@@ -765,6 +790,15 @@ static void backprop(State &S, const Value *V, const Val &nv, int depth = 0) {
       ConstantRange x = sv.r.intersectWith(r);
       if (x.isEmptySet()) return;
       sv.r = x; sv.kb = rangeKB(x);
+      if (nv.hascs && !x.isWrappedSet() && x.getUnsignedMax().ule(255)) {
+        // shift the byte set through the constant
+        int64_t cv = cast<ConstantInt>(bo->getOperand(1))->getSExtValue();
+        if (bo->getOpcode() == Instruction::Add) cv = -cv;      // source = result - c  (Add) / result + c (Sub)
+        std::bitset<256> sh;
+        for (int b = 0; b < 256; b++) if (nv.cs[b]) { int64_t s2 = (int64_t)b + cv; if (s2 >= 0 && s2 <= 255 && x.contains(APInt(sv.w, (uint64_t)s2))) sh.set((size_t)s2); }
+        if (sv.hascs) sh &= sv.cs;
+        if (sh.any()) { sv.hascs = true; sv.cs = sh; }
+      }
       F.regs[bo->getOperand(0)] = sv;
       backprop(S, bo->getOperand(0), sv, depth + 1);
     }
@@ -802,6 +836,30 @@ static void refineLoadedCell(State &S, const Value *V, const Val &nv) {
   if (c.cs.any()) D.setStrong(lo, c);
 }
 
+// a refined value that is a known function of a byte (tabulated pure call / constant table load) refines that byte
+static void refineByteFn(State &S, const Val &a) {
+  if (a.tbl < 0 || !a.tsrc || a.k != Val::INT || a.tdepth != S.stack.size() || isa<Constant>(a.tsrc)) return;
+  Frame &F = S.stack.back();
+  auto vi = F.ver.find(a.tsrc);
+  if ((vi == F.ver.end() ? 0u : vi->second) != a.tver) return;
+  const ByteFn &f = byteFns()[(size_t)a.tbl];
+  Val sv = getVal(S, a.tsrc);
+  if (sv.k != Val::INT) return;
+  std::bitset<256> cand;
+  if (sv.hascs) cand = sv.cs;
+  else if (sv.w == 8) { for (unsigned b = 0; b < 256; b++) if (sv.r.contains(APInt(8, b))) cand.set(b); }
+  else if (!sv.r.isFullSet() && !sv.r.isEmptySet() && !sv.r.isWrappedSet() && sv.r.getUnsignedMax().ule(255)) { for (unsigned b = 0; b < 256; b++) if (sv.r.contains(APInt(sv.w, b))) cand.set(b); }
+  else return;
+  std::bitset<256> keep;
+  for (unsigned b = 0; b < 256; b++) if (cand[b] && f.dom[b] && a.r.contains(APInt(a.w, (uint64_t)f.val[b], true))) keep.set(b);
+  if (keep.none() || keep == cand) return;
+  sv.hascs = true; sv.cs = keep;
+  { uint8_t pv = sv.prov; int root = sv.root; i128 rk = sv.rk; Val nv = Val::charset(sv.w, keep, pv); nv.tbl = sv.tbl; nv.tsrc = sv.tsrc; nv.tver = sv.tver; nv.tdepth = sv.tdepth; (void)root; (void)rk; sv = nv; }
+  setReg(S, a.tsrc, sv);
+  backprop(S, a.tsrc, sv);
+  refineLoadedCell(S, a.tsrc, sv);
+}
+
 static bool assumeCond(State &S, const Value *cond, bool truth) {
   if (auto *ic = dyn_cast<ICmpInst>(cond)) {
     CmpInst::Predicate p = truth ? ic->getPredicate() : ic->getInversePredicate();
@@ -831,8 +889,8 @@ static bool assumeCond(State &S, const Value *cond, bool truth) {
     Val a0 = a, b0 = b;
     if (!refineOne(S, p, a, b0)) return false;
     if (!refineOne(S, CmpInst::getSwappedPredicate(p), b, a0)) return false;
-    if (!isa<Constant>(ic->getOperand(0))) { setReg(S, ic->getOperand(0), a); backprop(S, ic->getOperand(0), a); refineLoadedCell(S, ic->getOperand(0), a); }
-    if (!isa<Constant>(ic->getOperand(1))) { setReg(S, ic->getOperand(1), b); backprop(S, ic->getOperand(1), b); refineLoadedCell(S, ic->getOperand(1), b); }
+    if (!isa<Constant>(ic->getOperand(0))) { setReg(S, ic->getOperand(0), a); backprop(S, ic->getOperand(0), a); refineLoadedCell(S, ic->getOperand(0), a); refineByteFn(S, a); }
+    if (!isa<Constant>(ic->getOperand(1))) { setReg(S, ic->getOperand(1), b); backprop(S, ic->getOperand(1), b); refineLoadedCell(S, ic->getOperand(1), b); refineByteFn(S, b); }
     return true;
   }
   if (auto *bo = dyn_cast<BinaryOperator>(cond)) {
@@ -873,6 +931,54 @@ static bool splitHole(State &S, const Value *cond, bool truth, State &extra) {
   return true;
 }
 
+// a load from a constant global array indexed by a value with a known byte set: result == table[index]
+static void linkTableLoad(State &S, const LoadInst *li, Val &lv) {
+  auto *gep = dyn_cast<GetElementPtrInst>(li->getPointerOperand());
+  if (!gep) return;
+  auto *gv = dyn_cast<GlobalVariable>(gep->getPointerOperand()->stripPointerCasts());
+  if (!gv || !gv->isConstant() || !gv->hasInitializer()) return;
+  auto *cda = dyn_cast<ConstantDataSequential>(gv->getInitializer());
+  if (!cda || !cda->getElementType()->isIntegerTy() || cda->getElementType() != li->getType()) return;
+  const Value *idx = nullptr;
+  unsigned n = gep->getNumIndices(), k = 0;
+  for (auto it = gep->idx_begin(); it != gep->idx_end(); ++it, ++k) {
+    if (auto *c = dyn_cast<ConstantInt>(it->get())) { if (!c->isZero()) return; continue; }
+    if (k + 1 != n || idx) return;
+    idx = it->get();
+  }
+  if (!idx || gep->getSourceElementType() != gv->getValueType()) return;
+  Val iv = getVal(S, idx);
+  if (iv.k != Val::INT) return;
+  tighten(S, iv);
+  if (!iv.hascs) {
+    if (iv.r.isFullSet() || iv.r.isEmptySet() || iv.r.isWrappedSet() || iv.r.getUnsignedMax().ugt(255)) return;
+    iv.cs.reset(); for (unsigned b = 0; b < 256; b++) if (iv.r.contains(APInt(iv.w, b))) iv.cs.set(b);
+  }
+  ByteFn f; f.val.fill(0);
+  for (unsigned b = 0; b < 256; b++) if (iv.cs[b]) {
+    if (b >= cda->getNumElements()) return;
+    f.dom.set(b); f.val[b] = (int64_t)cda->getElementAsInteger(b);
+  }
+  Frame &F = S.stack.back();
+  auto vi = F.ver.find(idx);
+  lv.tbl = internByteFn(f); lv.tsrc = idx; lv.tver = vi == F.ver.end() ? 0 : vi->second; lv.tdepth = (unsigned)S.stack.size();
+}
+
+static bool tabulableFn(const Function *F) {
+  static std::map<const Function *, bool> memo;
+  auto it = memo.find(F);
+  if (it != memo.end()) return it->second;
+  bool ok = isPureFn(F) && F->arg_size() == 1 && F->getArg(0)->getType()->isIntegerTy(8) && F->getReturnType()->isIntegerTy() && F->getReturnType()->getIntegerBitWidth() <= 64;
+  if (ok) for (auto &B : *F) for (auto &I : B) if (auto *l = dyn_cast<LoadInst>(&I)) {
+    const Value *p = l->getPointerOperand()->stripPointerCasts();
+    while (auto *g = dyn_cast<GetElementPtrInst>(p)) p = g->getPointerOperand()->stripPointerCasts();
+    while (auto *ce = dyn_cast<ConstantExpr>(p)) { if (ce->getOpcode() != Instruction::GetElementPtr && ce->getOpcode() != Instruction::BitCast) break; p = ce->getOperand(0); }
+    auto *gv = dyn_cast<GlobalVariable>(p);
+    if (!gv || !gv->isConstant()) ok = false;
+  }
+  return memo[F] = ok;
+}
+
 static uint64_t GlobalSteps = 0;
 struct Engine {
   std::vector<State> work;
@@ -885,6 +991,52 @@ struct Engine {
     Root R = S.roots[root];
     for (i128 v = R.lo + 1; v <= R.hi; v++) { State T = S; T.roots[root].lo = T.roots[root].hi = v; work.push_back(T); }
     S.roots[root].hi = R.lo;
+  }
+
+  // a store-free function of one byte that reads only constant tables: evaluated for every byte the argument can be
+  // (each evaluation is the ordinary interpretation with a constant argument, cached), the result is linked to the argument
+  bool tabulatedCall(State &S, const CallBase *cb, Function *callee) {
+    static std::map<std::pair<const Function *, unsigned>, std::pair<bool, int64_t>> cache;
+    Val av = getVal(S, cb->getArgOperand(0));
+    if (av.k != Val::INT || av.w != 8) return false;
+    std::bitset<256> cand;
+    if (av.hascs) cand = av.cs; else for (unsigned b = 0; b < 256; b++) if (av.r.contains(APInt(8, b))) cand.set(b);
+    if (cand.none()) return false;
+    unsigned rw = callee->getReturnType()->getIntegerBitWidth();
+    ByteFn f; f.val.fill(0);
+    int64_t mn = INT64_MAX, mx = INT64_MIN; bool small = true; std::bitset<256> rcs;
+    for (unsigned b = 0; b < 256; b++) if (cand[b]) {
+      auto key = std::make_pair((const Function *)callee, b);
+      auto it = cache.find(key);
+      if (it == cache.end()) {
+        State T = S;
+        T.stack.clear(); T.alarms.clear(); T.events.clear(); T.steps = 0; T.nforks = 0; T.fresh = 0;
+        Frame NF; NF.F = callee; NF.callsite = nullptr; NF.regs[callee->getArg(0)] = Val::capint(APInt(8, b));
+        NF.bb = &callee->getEntryBlock(); NF.it = NF.bb->begin();
+        T.stack.push_back(std::move(NF));
+        Engine sub; sub.run(std::move(T));
+        bool ok = sub.work.empty() && sub.done.size() == 1 && !sub.done[0].aborted && !sub.done[0].dedup && sub.done[0].alarms.empty();
+        int64_t rv = 0;
+        if (ok) { Val r = sub.done[0].stack.back().regs.lookup(nullptr); ok = r.k == Val::INT && r.isConst(); if (ok) rv = rw >= 64 ? (int64_t)r.constVal().getZExtValue() : r.constVal().getSExtValue(); }
+        it = cache.emplace(key, std::make_pair(ok, rv)).first;
+      }
+      if (!it->second.first) return false;
+      f.dom.set(b); f.val[b] = it->second.second;
+      mn = std::min(mn, it->second.second); mx = std::max(mx, it->second.second);
+      if (it->second.second < 0 || it->second.second > 255) small = false; else rcs.set((size_t)it->second.second);
+    }
+    Val rv;
+    if (mn == mx) rv = Val::capint(APInt(rw, (uint64_t)mn, true));
+    else rv = Val::range(rw, ConstantRange::getNonEmpty(APInt(rw, (uint64_t)mn, true), APInt(rw, (uint64_t)mx, true) + 1));
+    if (small && mn != mx) { rv.hascs = true; rv.cs = rcs; }
+    rv.prov = av.prov;
+    if (!isa<Constant>(cb->getArgOperand(0))) {
+      Frame &F = S.stack.back();
+      auto vi = F.ver.find(cb->getArgOperand(0));
+      rv.tbl = internByteFn(f); rv.tsrc = cb->getArgOperand(0); rv.tver = vi == F.ver.end() ? 0 : vi->second; rv.tdepth = (unsigned)S.stack.size();
+    }
+    finishCall(S, cb, rv);
+    return true;
   }
 
   // run one state to completion (or until it forks; forks are pushed to work)
@@ -908,7 +1060,12 @@ struct Engine {
         S.stack.back().allocas.push_back(r);
         defReg(S, I, Val::ptr(r, 0)); ++S.stack.back().it; continue;
       }
-      if (auto *li = dyn_cast<LoadInst>(I)) { Val p = getVal(S, li->getPointerOperand()); defReg(S, I, doLoad(S, p, li->getType(), I)); ++S.stack.back().it; continue; }
+      if (auto *li = dyn_cast<LoadInst>(I)) {
+        Val p = getVal(S, li->getPointerOperand());
+        Val lv = doLoad(S, p, li->getType(), I);
+        if (lv.k == Val::INT && lv.w <= 32) linkTableLoad(S, li, lv);
+        defReg(S, I, lv); ++S.stack.back().it; continue;
+      }
       if (auto *si = dyn_cast<StoreInst>(I)) {
         Val p = getVal(S, si->getPointerOperand()), v = getVal(S, si->getValueOperand());
         doStore(S, p, v, (unsigned)DLp->getTypeStoreSize(si->getValueOperand()->getType()), I);
@@ -949,7 +1106,18 @@ struct Engine {
       }
       if (auto *ci = dyn_cast<CastInst>(I)) {
         unsigned dw = ci->getType()->isIntegerTy() ? ci->getType()->getIntegerBitWidth() : 64;
-        defPure(S, I, castop(S, ci->getOpcode(), getVal(S, ci->getOperand(0)), dw, ci->getType())); ++S.stack.back().it; continue;
+        Val cs0 = getVal(S, ci->getOperand(0));
+        Val cr = castop(S, ci->getOpcode(), cs0, dw, ci->getType());
+        if (cs0.k == Val::INT && cs0.tbl >= 0 && cr.k == Val::INT && cr.tbl < 0 && (isa<ZExtInst>(ci) || isa<SExtInst>(ci) || isa<TruncInst>(ci))) {
+          ByteFn g = byteFns()[(size_t)cs0.tbl];
+          for (unsigned b = 0; b < 256; b++) if (g.dom[b]) {
+            APInt x(cs0.w, (uint64_t)g.val[b], true);
+            APInt y = isa<ZExtInst>(ci) ? x.zext(dw) : isa<SExtInst>(ci) ? x.sext(dw) : x.trunc(dw);
+            g.val[b] = dw >= 64 ? (int64_t)y.getZExtValue() : y.getSExtValue();
+          }
+          cr.tbl = internByteFn(g); cr.tsrc = cs0.tsrc; cr.tver = cs0.tver; cr.tdepth = cs0.tdepth;
+        }
+        defPure(S, I, cr); ++S.stack.back().it; continue;
       }
       if (auto *ic = dyn_cast<ICmpInst>(I)) {
         int t = icmpEval(S, ic->getPredicate(), getVal(S, ic->getOperand(0)), getVal(S, ic->getOperand(1)));
@@ -1048,6 +1216,7 @@ struct Engine {
           continue;
         }
         if (S.stack.size() > 64) { alarm(S, "BUDGET", I, "call depth"); S.aborted = true; continue; }
+        if (tabulableFn(callee) && cb->arg_size() == 1 && tabulatedCall(S, cb, callee)) continue;
         Frame NF; NF.F = callee; NF.callsite = cb;
         unsigned ai = 0;
         for (auto &A : callee->args()) { if (ai < cb->arg_size()) NF.regs[&A] = getVal(S, cb->getArgOperand(ai)); ai++; }
